@@ -131,8 +131,13 @@ let () =
     | Some c ->
       let tr = List.rev !trace in
       if not !skip then begin
+        (* the documented score raises the hit count to the power of the weight's numerator: computable only for
+           the weights C08 quantifies over (0.1 .. 3); extreme weights (C04X, C16) are outside that predicate *)
+        let rec small p n = n > 0 && (match p with XH -> true | XO q | XI q -> small q (n - 1)) in
+        let c08_applies = (match c.fw with Some (n, d) -> small n 8 && small d 8 | None -> true) in
+        if List.mem "c08" !props && not c08_applies then bump "c08_skipped_extreme_weight";
         List.iter (fun (name, p) ->
-            if List.mem name !props then begin
+            if List.mem name !props && (name <> "c08" || c08_applies) then begin
               let idx = int_of_n (first_fail p c [] (n_of_int 1) tr) in
               if idx <> 0 then Printf.printf "F %s %s %d\n" !cur_id name idx
             end) step_preds;
